@@ -96,6 +96,12 @@ class Ctx:
             self.say('translator:', out8.strip())
             if rc8 != 0:
                 self.problems.append(('translator', out8.strip()))
+        # the repairs of the recorded defects are still in place (C06 C07 C08 C10 C15)
+        rcA, outA, _ = sh([sys.executable, os.path.join(VERIF, 'tools', 'fixsites.py'), REPO, os.path.join(COQ, 'gen')])
+        if self.pid in ('C06', 'C07', 'C08', 'C10', 'C15'):
+            self.say('translator:', outA.strip())
+            if rcA != 0:
+                self.problems.append(('translator', outA.strip()))
         # shapes behind claiming (C14)
         rc9, out9, _ = sh([sys.executable, os.path.join(VERIF, 'tools', 'claimsites.py'), REPO, os.path.join(COQ, 'gen')])
         if self.pid == 'C14':
